@@ -71,6 +71,7 @@ def call_pool():
         'sharedgen_nows_ignorecase': lambda: observe(lambda t: shared_gen().parse(t, whitespace='', ignorecase=True)),
         'sharedgen_semA': lambda: observe(lambda t: shared_gen().parse(t, semantics=sa)),
         'sharedgen_semB': lambda: observe(lambda t: shared_gen().parse(t, semantics=sb)),
+        'sharedgen_asmodel': lambda: observe(lambda t: shared_gen().parse(t, asmodel=True)),
         'sharedmodel_plain': lambda: observe(shared_model().parse),
         'sharedmodel_start_item_parseinfo': lambda: observe(lambda t: shared_model().parse(t, start='item', parseinfo=True)),
         'compile_g1': lambda: observe(tatsu.compile(G1).parse),
@@ -98,7 +99,7 @@ def _gen(g):
     return ns['HParser']()
 
 
-POOL_NAMES = ['sharedgen_plain', 'sharedgen_start_item', 'sharedgen_nows_ignorecase', 'sharedgen_semA', 'sharedgen_semB', 'sharedmodel_plain', 'sharedmodel_start_item_parseinfo', 'compile_g1', 'compile_g1_asmodel', 'compile_g1_semA', 'compile_g1_semB', 'compile_g1_named', 'compile_g2', 'compile_g2_ignorecase', 'compile_g2_noguard',
+POOL_NAMES = ['sharedgen_plain', 'sharedgen_start_item', 'sharedgen_nows_ignorecase', 'sharedgen_semA', 'sharedgen_semB', 'sharedgen_asmodel', 'sharedmodel_plain', 'sharedmodel_start_item_parseinfo', 'compile_g1', 'compile_g1_asmodel', 'compile_g1_semA', 'compile_g1_semB', 'compile_g1_named', 'compile_g2', 'compile_g2_ignorecase', 'compile_g2_noguard',
               'parse_g2_ignorecase', 'model_parse_start_item', 'compile_g3', 'source_g1', 'generated_g2', 'failed_then_good_g3']
 
 
